@@ -119,14 +119,32 @@ def main():
         check(sys.argv[2], sys.argv[3] if len(sys.argv) > 3 else 'quick',
               sys.argv[4].split(',') if len(sys.argv) > 4 else None)
     if cmd == 'all':
+        # tools/seed_run.py all [tier] [jobs]  -> seeded/RESULTS.json
+        from concurrent.futures import ThreadPoolExecutor
         tier = sys.argv[2] if len(sys.argv) > 2 else 'quick'
+        jobs = int(sys.argv[3]) if len(sys.argv) > 3 else 4
         base = os.path.join(V, 'seeded')
+        names = [n for n in sorted(os.listdir(base))
+                 if os.path.exists(os.path.join(base, n, 'patch.diff'))]
+
+        def one(name):
+            rc, out = sh([sys.executable, os.path.abspath(__file__), 'check',
+                          os.path.join(base, name), tier], timeout=7200)
+            kind = 'error'
+            detail = []
+            for l in out.split('\n'):
+                if f' {tier}: ' in l and l.startswith(name):
+                    kind = l.split(': ', 1)[1].strip()
+                if l.strip().startswith(('failing:', 'broken:')):
+                    detail.append(l.strip()[:240])
+            return name, kind, detail[:3]
+        head = sh(['git', '-C', '/repo', 'rev-parse', '--short', 'HEAD'])[1].strip()
         table = {}
-        for name in sorted(os.listdir(base)):
-            d = os.path.join(base, name)
-            if os.path.exists(os.path.join(d, 'patch.diff')):
-                table[name] = check(d, tier)
-        print(json.dumps(table, indent=1))
+        with ThreadPoolExecutor(max_workers=jobs) as ex:
+            for name, kind, detail in ex.map(one, names):
+                table[name] = {'result': kind, 'tier': tier, 'repo_head': head, 'detail': detail}
+                print(name, kind, flush=True)
+        json.dump(table, open(os.path.join(base, 'RESULTS.json'), 'w'), indent=1)
 
 
 if __name__ == '__main__':
